@@ -3,7 +3,7 @@ use std::collections::HashMap;
 
 #[derive(Clone)]
 pub struct DrawTable {
-    pub table: HashMap<ZobristKey, u8>,
+    pub table: HashMap<ZobristKey, u32>,
 }
 
 impl DrawTable {
